@@ -285,6 +285,8 @@ func ruleSkipInventory(c *Ctx, r *Report, clause string, table map[string]string
 			desc += ": " + reason
 		} else if w.decidesOnKnownInputs(c.VerifDir, s.Fn, s.Atoms) {
 			desc += ": not in the table, but it decides only on what the reviewed skips of this function decide on (a restructured conditional)"
+		} else if k := sameSkipModuloIdiom(table, s.Key); k != "" {
+			desc += ": the reviewed skip `" + table[k] + "` with the piece of text cut off by another std-lib call (Split / SplitN / Cut)"
 		} else {
 			viol = fmt.Sprintf("%s: %s leaves elements of %s out under a condition [%s] that is not in the reviewed table (tables/skips.json) and decides on inputs the reviewed function never branched on (%v): whatever that loop produces (operations, parameters, properties, imports, entries, comment lines) silently loses the skipped elements", w.pos(s.Pos), s.Fn, s.Over, s.Cond, w.unknownInputs(c.VerifDir, s.Fn, s.Atoms))
 		}
@@ -446,4 +448,44 @@ func vacuousSkip(info *types.Info, loop *ast.RangeStmt, is *ast.IfStmt, cond ast
 		})
 	}
 	return okUse
+}
+
+// sameSkipModuloIdiom: a reviewed skip of the same function over the same collection whose
+// condition differs from key's only in how a piece of a string is cut off (strings.Split /
+// SplitN / Cut and the integer literals and indexing that go with them). Returns its key.
+func sameSkipModuloIdiom(table map[string]string, key string) string {
+	norm := func(k string) (head string, parts string) {
+		i := strings.Index(k, ":skip[")
+		if i < 0 {
+			return k, ""
+		}
+		head = k[:i]
+		body := k[i+len(":skip["):]
+		if j := strings.LastIndex(body, "]"); j >= 0 {
+			body = body[:j]
+		}
+		set := map[string]bool{}
+		for _, p := range strings.Split(body, ",") {
+			switch {
+			case p == "call:strings.SplitN", p == "call:strings.Cut", p == "call:strings.Split":
+				set["call:strings.Split"] = true
+			case p == "op:index":
+			case strings.HasPrefix(p, "lit:") && len(p) > 4 && p[4] >= '0' && p[4] <= '9':
+			case p == "":
+			default:
+				set[p] = true
+			}
+		}
+		return head, strings.Join(keys(set), ",")
+	}
+	h, n := norm(key)
+	if n == "" || !strings.Contains(n, "call:strings.Split") {
+		return ""
+	}
+	for k := range table {
+		if hh, nn := norm(k); hh == h && nn == n {
+			return k
+		}
+	}
+	return ""
 }
